@@ -251,6 +251,15 @@ fn crash_case(tag: u8, payload: &[u8]) -> Option<Value> {
             "what": "crash",
         })),
         4 => Some(json!({"kind": "opaque", "bytes": payload.to_vec(), "what": "crash"})),
+        5 if payload.len() >= 80 => {
+            let root = pos_from_bytes(payload);
+            let path: Vec<String> = payload[80..]
+                .chunks(3)
+                .filter(|c| c.len() == 3)
+                .map(|c| model::text::uci(model::Mv { from: c[0], to: c[1], promo: c[2], flag: 0 }))
+                .collect();
+            Some(json!({"kind": "hist", "fen": model::text::fen(&root), "path": path, "what": "crash"}))
+        }
         _ => None,
     }
 }
